@@ -398,7 +398,10 @@ func (f *Frame) loopMods(l *Loop) {
 	ms := newModSet()
 	for b := range l.blocks {
 		for _, in := range b.Instrs {
-			ms.add(f.vc.eng.instrMods(in, f.depth, map[*ssa.Function]bool{f.fn: true}))
+			// (an empty stack: a recursive call to f.fn inside the loop contributes the
+			// whole modification set of f.fn - the least fixpoint is reached because
+			// fnMods treats the nested recursive call as adding nothing new)
+			ms.add(f.vc.eng.instrMods(in, f.depth, map[*ssa.Function]bool{}))
 		}
 	}
 	for k, s := range ms.comps {
